@@ -624,6 +624,9 @@ class MinMaxAggregator:
         result_arg = oldmax.atom.symbol.arguments[minmaxpred[2]]
         if result_arg.ast_type != ASTType.Variable or result_arg.name != varname:
             return [stm]
+        # ... and must not be one of the group's keys as well ('mx(V,V)' also says that the result equals the key)
+        if list(oldmax.atom.symbol.arguments).count(result_arg) != 1:
+            return [stm]
 
         # check if all Variables from old predicate are used in the tuple identifier
         # to make a unique semantics
@@ -712,6 +715,9 @@ class MinMaxAggregator:
         # the weight has to be the min/max result itself
         result_arg = old_max.atom.symbol.arguments[minmaxpred[2]]
         if result_arg.ast_type != ASTType.Variable or result_arg.name != varname:
+            return [elem]
+        # ... and must not be one of the group's keys as well ('mx(V,V)' also says that the result equals the key)
+        if list(old_max.atom.symbol.arguments).count(result_arg) != 1:
             return [elem]
 
         # check if all Variables from old predicate are used in the tuple identifier
